@@ -185,6 +185,37 @@ def every_learnable_tensor_is_handed_to_the_optimizer(S):
         S.ensure("optimizer-returned", out is call["result"])
 
 
+@scenario("C07", [SOLVER + ".configure_optimizers", OPT + ".__init__"], configs=["two-settings-with-default-arguments", "one-setting-lr-edited-between-fits"])
+def optimizer_wiring_does_not_depend_on_earlier_configurations(S):
+    """history: configure_optimizers of one Solver, then of another one whose OptimizerSetting was also created with the
+    default optimizer_args (resp. the same setting with its lr edited): every optimizer is built with the lr and the
+    arguments of ITS setting at that moment, and configuring leaves the settings' argument dictionaries unchanged."""
+    from tpv import frame
+
+    fam = CondFamily(S, "train", 1)
+    opt_cls = TensorFn("optimizer_class", lambda I_, a, k: __import__("tpv.interp", fromlist=["x"]).Opaque("optimizer"))
+    lr1, lr2 = S.real("lr1"), S.real("lr2")
+    set1 = S.new(OPT, opt_cls, lr1)
+    if S.cfg.startswith("two"):
+        set2 = S.new(OPT, opt_cls, lr2)
+    else:
+        set2 = set1
+    sol1 = S.new(SOLVER, fam, (), set1)
+    S.method(sol1, "configure_optimizers")
+    S.ensure("first-optimizer-built-with-its-own-lr", len(opt_cls.calls) == 1 and opt_cls.calls[0]["kwargs"].get("lr") is lr1)
+    S.ensure("configuring-leaves-the-argument-dictionary-unchanged", S.getattr(set1, "optimizer_args") == {})
+    if set2 is set1:
+        S.I.setattr(set1, "lr", lr2)
+    sol2 = S.new(SOLVER, fam, (), set2)
+    S.method(sol2, "configure_optimizers")
+    S.ensure("second-optimizer-built-once", len(opt_cls.calls) == 2)
+    if len(opt_cls.calls) == 2:
+        kw = opt_cls.calls[1]["kwargs"]
+        S.ensure("second-optimizer-built-with-the-lr-of-its-setting-at-that-moment", kw.get("lr") is lr2)
+        S.ensure("no-argument-leaks-from-the-earlier-configuration", sorted(kw) == ["lr"])
+    S.ensure("argument-dictionaries-still-unchanged", S.getattr(set1, "optimizer_args") == {} and S.getattr(set2, "optimizer_args") == {})
+
+
 @scenario("C07", [AWL + ".forward", AWL + ".grad_reverse", AWL + ".GradReverse.forward", AWL + ".GradReverse.backward"], configs=["n"])
 def adaptive_weights_ascend(S):
     """post: forward multiplies the unreduced loss by the weights (identity through GradReverse);
